@@ -154,7 +154,7 @@ def gaussian_syn_likelihood_ghurye_olkin(ssx, ssy):
     """
     n, d = ssx.shape
     mu = np.mean(ssx, 0)
-    Sigma = np.cov(np.transpose(ssx))
+    Sigma = np.atleast_2d(np.cov(np.transpose(ssx)))
     ssy = ssy.reshape((-1, 1))
     mu = mu.reshape((-1, 1))
 
@@ -296,7 +296,7 @@ def syn_likelihood_misspec(ssx, ssy, gamma, adjustment):
     """
     ssy = np.squeeze(ssy)
     sample_mean = ssx.mean(0)
-    sample_cov = np.cov(ssx, rowvar=False)
+    sample_cov = np.atleast_2d(np.cov(ssx, rowvar=False))
     std = np.sqrt(np.diag(sample_cov))
 
     if adjustment == "mean":
